@@ -12,10 +12,22 @@
    9 the implementation panicked (the model is total); 10 the document was
    paginated; 2 skipped (outside the modelled domain or binary32 range).
 
+   Documents on which implementation and float32 model agree are then checked
+   against the SPECIFICATION (Layout/Css21BlockSpec.v): when the float32
+   computation was exact (float32 model = exact-rational model on every
+   field), the CSS 2.1 equations (vertical_eqs: positions, heights; width
+   equation) are evaluated with exact arithmetic on the implementation's
+   output:
+   100 all hold, tree inside the domain of the theorem C10_margin_collapsing_partial;
+   101 all hold, tree outside it; 102 not evaluated (inexact arithmetic);
+   20 an equation fails inside the domain (contradicts the theorem);
+   21 an equation fails outside the domain (known finding C10/through-first-child);
+   23 the width equation fails.
+
    The right margin is compared only when the width equation is not
    over-constrained (DESIGN.md C10, note on observables). *)
-From Verif Require Export Base.F32 Layout.BlockFlow.
-From Coq Require Import QArith List NArith ZArith.
+From Verif Require Export Base.F32 Layout.BlockFlow Layout.Css21BlockSpec.
+From Coq Require Import QArith List NArith ZArith Bool.
 Import ListNotations.
 Open Scope Q_scope.
 
@@ -86,6 +98,52 @@ Fixpoint cmp_boxes (ms : list (ubox * bool)) (os : list obox) : N :=
   | _, _ => 4%N
   end.
 
+(* ---------------------------------------------------------------- specification on the implementation's output *)
+
+(* exact arithmetic with reduced fractions (== exactQ, keeps the numbers small) *)
+Definition redQ : arith :=
+  {| add := fun a b => Qred (a + b); sub := fun a b => Qred (a - b);
+     mul := fun a b => Qred (a * b); div := fun a b => Qred (a / b) |}.
+
+Definition ubox_eqb (a b : ubox) : bool :=
+  Qeq_bool (ux a) (ux b) && Qeq_bool (uy a) (uy b)
+  && mf_eqb (umt a) (umt b) && mf_eqb (umr a) (umr b) && mf_eqb (umb a) (umb b) && mf_eqb (uml a) (uml b)
+  && Qeq_bool (upt a) (upt b) && Qeq_bool (upr a) (upr b) && Qeq_bool (upb a) (upb b) && Qeq_bool (upl a) (upl b)
+  && Qeq_bool (ubt a) (ubt b) && Qeq_bool (ubr a) (ubr b) && Qeq_bool (ubb a) (ubb b) && Qeq_bool (ubl a) (ubl b)
+  && mf_eqb (uw a) (uw b) && mf_eqb (uh a) (uh b)
+  && Qeq_bool (uminw a) (uminw b) && Qeq_bool (uminh a) (uminh b)
+  && ext_eqb (umaxw a) (umaxw b) && ext_eqb (umaxh a) (umaxh b).
+
+Fixpoint lbox_eqb (a b : lbox) : bool :=
+  match a, b with
+  | LBox ua oa ha ca, LBox ub ob hb cb =>
+      ubox_eqb ua ub && Bool.eqb oa ob && mf_eqb ha hb &&
+      (fix all2 (l1 l2 : list lbox) : bool :=
+         match l1, l2 with
+         | [], [] => true
+         | x :: r1, y :: r2 => lbox_eqb x y && all2 r1 r2
+         | _, _ => false
+         end) ca cb
+  end.
+
+(* the width equation on a laid out tree: for every box that is not over-constrained,
+   ml + bl + pl + w + pr + br + mr = width of the containing block *)
+Fixpoint width_eq_ok (cbw : Q) (b : lbox) : bool :=
+  match b with
+  | LBox u over _ cs =>
+      (over || Qeq_bool (V (uml u) + ubl u + upl u + V (uw u) + upr u + ubr u + V (umr u)) cbw)
+      && forallb (width_eq_ok (V (uw u))) cs
+  end.
+
+Definition spec_code (cby cbw : Q) (t32 tq : lbox) : N :=
+  if negb (lbox_eqb t32 tq) then 102%N
+  else if negb (width_eq_ok cbw t32) then 23%N
+  else
+    let dom := no_through_first true t32 in
+    if forallb veq_holdsb (vertical_eqs t32 true cby [] None)
+    then (if dom then 100%N else 101%N)
+    else (if dom then 20%N else 21%N).
+
 (* ---------------------------------------------------------------- leaves *)
 
 Definition win_box (i : win) : ubox :=
@@ -130,9 +188,12 @@ Definition model_out (c : case) : mout :=
 Definition check (c : case) : N :=
   match c with
   | CDoc cbx cby cbw cbh root obs =>
-      let m := model_doc cbx cby cbw cbh root in
+      let t32 := layout_doc f32 cbx cby cbw cbh root in
+      let m := flatten t32 in
       if negb (forallb (fun p => ubox_in_range (fst p)) m) then 2%N
-      else cmp_boxes m obs
+      else let k := cmp_boxes m obs in
+           if negb (N.eqb k 0) then k
+           else spec_code cby cbw t32 (layout_doc redQ cbx cby cbw cbh root)
   | CWidth i cbw (WOut x ml mr w) =>
       let '(u, over) := model_width i cbw in
       if negb (ubox_in_range u) then 2%N
